@@ -16,6 +16,8 @@ Oracle (real objects only, independent formula from the Chemical objects):
   * isothermal: ΔHnet = Σ dH_k·feed_k + ΔH − (latent part); exactly Σ dH_k·feed_k at 298.15 K when every reacting
     chemical is in its reference phase,
   * adiabatic: Hnet_after = Hnet_before + Q within the solver tolerance,
+  * every H / Hnet read (before and after each reaction, also after another memoised property was read in between)
+    equals H + Hf of a freshly built stream in the same state, and the adiabatic balance also holds on those values,
   * `dH_wt · MW_reactant = dH_mol` across `rxn.basis = 'wt'`; `dH` raises iff a reacting chemical is tagged with a
     phase outside s/l/g other than its reference phase; the dH of a set item is a scalar.
 The per-reaction feeds of a series / system are observed by applying the real constituent reactions one after the
@@ -34,7 +36,8 @@ RULE = ('a case = 1–4 real balanced reactions from a 17-reaction library over 
         'revision history on fresh Chemical copies (chemical.Hf / .Hfus = … of participating chemicals, chemicals.refresh_constants(), '
         'before or between the stream operations; reference = the chemicals\' current values); then isothermal and '
         'adiabatic reaction of gas / liquid / multi-phase feeds at 280–450 K (30 % at 298.15 K) with random non-negative '
-        'compositions (some deficient → InfeasibleRegion) and heat inputs Q = C·ΔT, ΔT ∈ [−40, 120] K; '
+        'compositions (some deficient → InfeasibleRegion), read histories (H/Hnet/C read, reaction at unchanged T and P, another '
+        'memoised property peek=C|S|F_vol|rho|mu|kappa|Cn|V|Cp read, then Hnet or adiabatic_reaction on the same stream) and heat inputs Q = C·ΔT, ΔT ∈ [−40, 120] K; '
         'non-trivial = a reaction with X ≠ 0 applied to a feed containing its reactant; distinct = distinct op lists')
 ASSUMPTIONS = [
     'H(n, T) (mixture enthalpy) is a parameter: the recorded stream.H values are passed to the model',
@@ -211,6 +214,30 @@ def amount(s, rec):
     return float(idx[key])
 
 
+PEEKS = ['C', 'S', 'F_vol', 'rho', 'mu', 'kappa', 'Cn', 'V', 'Cp']
+
+
+def peek(s, t, tags):
+    """read another memoised property of the stream (tokens `peek=<attr>`), as a user sizing a reactor would"""
+    for tok in t:
+        if tok.startswith('peek='):
+            try: getattr(s, tok[5:])
+            except Exception: tags.add('peek:raised'); continue
+            tags.add('peek:' + tok[5:])
+
+
+def fresh_energy(s):
+    """(H, Hf) of a freshly built stream with the same flows, phase(s), T, P and property package: what
+    `H(T, P, current flows)` and `Σ Hf_i n_i` are for the stream's *current* state, whatever was read before"""
+    if isinstance(s, tmo.MultiStream):
+        f = tmo.MultiStream(None, T=s.T, P=s.P, phases=tuple(s.phases), thermo=s.thermo)
+        for ph in s.phases: f.imol[ph] = s.imol[ph]
+    else:
+        f = tmo.Stream(None, T=s.T, P=s.P, phase=s.phase, thermo=s.thermo)
+        f.imol.data[:] = s.imol.data.to_array()
+    return float(f.H), float(f.Hf)
+
+
 def real_heat(entry, s):
     """Σ_k (real dH_k)·(reactant amount reaction k sees), and the same with the independent formation-only and
     latent-only coefficients, stepping the real constituent reactions (normal call path) on a copy of the stream.
@@ -261,6 +288,20 @@ def run_impl(case: Case) -> ImplResult:
             fail('dH-formula:%s:%s' % (rec['basis'], 'tagged' if rec['phases'] else 'untagged'),
                  f'{what}.dH = {v!r} but X·Σν(Hf+latent){"/MW" if rec["basis"] == "wt" else ""} = {ref!r} '
                  f'(X={rec["X"]}, reactant={rec["reactant"]}, phases={rec["phases"]})')
+
+    revised_models = set()
+    def check_current(s, H, Hnet, where, scale):
+        """Hnet = H(T, P, current flows) + Hf: the values read from the stream against a freshly built stream"""
+        if id(s) in revised_models: tags.add('skip:current-check-after-Hfus-revision'); return None
+        try: Hfr, Hffr = fresh_energy(s)
+        except PROP_ERRORS: return None
+        if not (math.isfinite(Hfr) and math.isfinite(Hffr)): return None
+        tolv = 1e-9 * (scale + abs(Hfr) + abs(Hffr)) + 1e-9
+        if not abs(H - Hfr) <= tolv or not abs(Hnet - (Hfr + Hffr)) <= tolv:
+            fail('Hnet-not-current:' + where,
+                 f'{where}: stream.H = {H!r}, stream.Hnet = {Hnet!r} but a freshly built stream with the same flows, phase, '
+                 f'T={float(s.T)}, P has H = {Hfr!r}, H + Hf = {Hfr + Hffr!r} (a value memoised before the flows changed is served)')
+        return Hfr + Hffr
 
     for line in case.ops:
         t = line.split(' ')
@@ -355,6 +396,11 @@ def run_impl(case: Case) -> ImplResult:
             assert revising and attr in ('Hf', 'Hfus')
             setattr(getattr(ta.chemicals, ID), attr, val)
             tags.add('rev:' + attr)
+            if attr == 'Hfus':
+                # a revised heat of fusion changes the chemical's H(T) functions; a stream that memoised H before keeps the old
+                # value (the memo is keyed on the stream's state, not on chemical data): outside this property — such
+                # streams are not compared with freshly built ones
+                revised_models.update(id(v) for v in streams.values())
         elif op == 'refresh':
             # the documented way to propagate revised constants to the compiled arrays
             for th_ in thermos: th_.chemicals.refresh_constants()
@@ -381,6 +427,8 @@ def run_impl(case: Case) -> ImplResult:
                 s = tmo.MultiStream(None, T=T, P=P, phases=tuple(ph), thermo=th)
                 for ID, p_, a in flows: s.imol[p_, ID] = float(a)
             streams[sid] = s
+        elif op == 'peek':
+            if t[1] in streams: peek(streams[t[1]], ['peek=' + t[2]], tags)
         elif op in ('iso', 'adia'):
             if t[2] not in streams: tags.add('skip:stream-dead'); continue
             x, s = rx[t[1]], streams[t[2]]
@@ -397,12 +445,14 @@ def run_impl(case: Case) -> ImplResult:
             if any(indep_dH(m['rec']) is None for m in singles): tags.add('skip:invalid-phase-tag'); continue
             if bool(phases) != isinstance(s, tmo.MultiStream) or (phases and tuple(s.phases) != tuple(phases)):
                 tags.add('skip:phase-mismatch'); continue
+            if op == 'adia': peek(s, t, tags)
             try:
                 H0, Hf0, Hnet0, C0 = float(s.H), float(s.Hf), float(s.Hnet), float(s.C)
             except PROP_ERRORS:
                 tags.add('skip:no-H-model'); continue
             if not all(map(math.isfinite, (H0, Hf0, Hnet0, C0))): tags.add('skip:no-H-model'); continue
             n0 = flat_n(s, phases)
+            Hnet0_true = check_current(s, H0, Hnet0, 'before-' + op, abs(H0) + abs(Hf0))
             T0 = float(s.T)
             try:
                 heat, form, lat = real_heat(x, s)
@@ -421,12 +471,14 @@ def run_impl(case: Case) -> ImplResult:
                 except tmo.exceptions.InfeasibleRegion:
                     emit('iso %s n=%s H0=%s H1=%s' % (t[1], frs(n0), fr(H0), fr(H0)), 'err=infeasible')
                     tags.add('iso:infeasible'); del streams[t[2]]; continue
+                peek(s, t, tags)        # another memoised property read between the reaction and the enthalpy reads
                 try:
                     H1, Hf1, Hnet1 = float(s.H), float(s.Hf), float(s.Hnet)
                 except PROP_ERRORS:
                     tags.add('skip:no-H-model'); del streams[t[2]]; continue
                 n1 = flat_n(s, phases)
                 dHnet = Hnet1 - Hnet0
+                check_current(s, H1, Hnet1, 'after-iso', abs(H1) + abs(Hf1))
                 emit('iso %s n=%s H0=%s H1=%s' % (t[1], frs(n0), fr(H0), fr(H1)),
                      'n=%s Hf0=%s Hf1=%s %sdHnet=%s chk=ok' % (frs(n1), fr(Hf0), fr(Hf1),
                                                               'heat=%s ' % fr(heat) if heat is not None else '', fr(dHnet)))
@@ -489,6 +541,12 @@ def run_impl(case: Case) -> ImplResult:
                     fail('hypothesis:H-setter-residual',
                          f'the H setter was handed {target!r} but stream.H reads {Hgot!r} afterwards (T_out={T1}, ε={eps:.3g}): '
                          f'the post-condition assumed by adiabatic_balance is not met')
+                Hnet1_true = check_current(s, Hgot, Hnet1, 'after-adia', abs(Hgot) + abs(Hf1))
+                if Hnet0_true is not None and Hnet1_true is not None and not abs(Hnet1_true - (Hnet0_true + Q)) <= eps + 1e-9 * scale:
+                    fail('adiabatic-balance-current-state:' + kindtag,
+                         f'adiabatic reaction from T={T0} with Q={Q!r}: with H and Hf evaluated on freshly built streams in the '
+                         f'states before and after, Hnet_after − (Hnet_before + Q) = {Hnet1_true - (Hnet0_true + Q)!r} '
+                         f'(tolerance {eps:.3g}; T_out={T1})')
                 if not abs(resid) <= eps:
                     fail('adiabatic-balance:' + kindtag,
                          f'adiabatic reaction from T={T0} with Q={Q!r}: Hnet_after − (Hnet_before + Q) = {resid!r} '
@@ -696,16 +754,20 @@ def gen_case(rng):
         # the other property package only for single-phase streams: MaterialIndexer.reset_chemicals does not restore a
         # MultiStream of another package (a material defect, C05's subject), which would mask everything here
         ops.append('S s%d %d %s 101325 %s %s' % (sidx, 1 if (not tagging and rng.random() < 0.3) else 0, num(T), sph, ','.join(flows)))
+        # read histories: (H, Hnet, C are read before every reaction) → reaction at unchanged T, P → another memoised
+        # property (`peek=`) → H / Hnet again, or adiabatic_reaction started from that state
+        def pk(p): return (' peek=' + rng.choice(PEEKS)) if rng.random() < p else ''
         if rng.random() < 0.5:
-            ops.append('iso %s s%d' % (top, sidx))
-            if rng.random() < 0.3: ops.append('adia %s s%d %s %s' % (top, sidx, num(rng.choice([0, 0, 10, -20, 50])), sph))
+            ops.append('iso %s s%d%s' % (top, sidx, pk(0.6)))
+            if rng.random() < 0.2: ops.append('peek s%d %s' % (sidx, rng.choice(PEEKS)))
+            if rng.random() < 0.45: ops.append('adia %s s%d %s %s%s' % (top, sidx, num(rng.choice([0, 0, 10, -20, 50])), sph, pk(0.3)))
         else:
             dT = rng.choice([0, 0, 0, 5, -10, 30, 100]) if rng.random() < 0.7 else round(rng.uniform(-40, 120), 2)
-            ops.append('adia %s s%d %s %s' % (top, sidx, num(dT), sph))
-            if rng.random() < 0.3: ops.append('iso %s s%d' % (top, sidx))
+            ops.append('adia %s s%d %s %s%s' % (top, sidx, num(dT), sph, pk(0.3)))
+            if rng.random() < 0.3: ops.append('iso %s s%d%s' % (top, sidx, pk(0.6)))
         if revise_late and sidx == 0:
             ops.extend(revision())
-            if rng.random() < 0.5: ops.append('iso %s s0' % top)      # the stream created before the revision
+            if rng.random() < 0.5: ops.append('iso %s s0%s' % (top, pk(0.5)))      # the stream created before the revision
     return Case(ops, {})
 
 
@@ -717,6 +779,11 @@ def generate(rng, tier, index, nworkers):
 
 def corpus():
     return [
+        # read H/Hnet → isothermal reaction at unchanged T, P → read another memoised property → Hnet / adiabatic_reaction
+        Case(['R r0 mol 0.7 H2 ph=- :: 2 H2 + O2 -> 2 Water', 'S s0 0 400 101325 g H2:g:10,O2:g:20,Water:g:100,N2:g:50',
+              'iso r0 s0 peek=C', 'adia r0 s0 0 g',
+              'S s1 0 298.15 101325 g CO:g:10,O2:g:20,Water:g:100', 'R r1 wt 0.5 CO ph=- :: 2 CO + O2 -> 2 CO2', 'iso r1 s1 peek=F_vol',
+              'peek s1 S', 'adia r1 s1 20 g peek=mu']),
         # X = 1 on the weight basis at ~1e4 kg/hr: the exact model ends at 0, the float call a few ulps below −1e-12 and raises
         # InfeasibleRegion (seed 106 of a soak run); accepted only because the driver marks the line fragile=1
         Case(['R r0 wt 0 O2 ph=- :: Methanol + 1.5 O2 -> CO2 + 2 Water', 'R r1 wt 0.1 CO ph=- :: 2 CO + 4 H2 -> 2 Methanol',
